@@ -124,6 +124,16 @@ def judge(ts, sep, explicit, path_mode, case, out, scratch):
     return text, res
 
 
+def _dest_sorted(text, sep):
+    """the written text with the tokens of every destination line sorted: destinations are a set, the order in which
+    the writer lists them is promised by nothing (the line after each `**name` line)"""
+    lines = text.split("\n")
+    for k in range(1, len(lines)):
+        if lines[k - 1].startswith("**") and not lines[k - 1].startswith("***") and (k < 2 or lines[k - 2] == ""):
+            lines[k] = " ".join(sorted(lines[k].split(" ")))
+    return "\n".join(lines)
+
+
 def _na_rep(rng, sep):
     """the `na_rep` argument: None (the writer's default) or another spelling of a missing-value marker (the theorem
     holds for every representation that reads back as missing in numeric and datetime columns alike)"""
@@ -168,8 +178,9 @@ def run(tier, seed, model_ok, translator, search=False):
         sizes = LONG_ROWS if thorough else [1025, 2049] + [rng.choice(LONG_ROWS) for _ in range(2)]
         for n_long, n_row in enumerate(sizes):
             kinds = [rng.choice(["text", "onoff", "datetime", "num", "int", "f32"]) for _ in range(rng.choice([1, 2]))]
-            # the second long table of every run is transposed (its lines are longer than any read buffer)
-            t, _ = wc.wf_table(rng, ";", n_long == 1 or rng.random() < 0.3, kinds=kinds, n_row=n_row)
+            # the first long table of every run is row-wise (more lines than any batch), the second transposed (its
+            # lines are longer than any read buffer), the others either
+            t, _ = wc.wf_table(rng, ";", n_long == 1 or (n_long > 1 and rng.random() < 0.3), kinds=kinds, n_row=n_row)
             cases.append((k, ";", [t], k % 2 == 0, k % 3 == 0, None, k % 16))
             out.count("long-tables" + (":transposed" if t.metadata.transposed else ""))
             k += 1
@@ -247,7 +258,7 @@ def run(tier, seed, model_ok, translator, search=False):
                 elif what == "read_csv":
                     if bc.canon_model(ans) != impl:
                         out.mismatch("read_csv vs Lean readCsv", case, impl, bc.canon_model(ans))
-                elif ans != impl:
+                elif _dest_sorted(ans, case.get("sep", ";")) != _dest_sorted(impl, case.get("sep", ";")):
                     out.mismatch("write_csv text vs Lean writeCsv", case, impl, ans)
             out.dist["tables_inside_theorem_domain(wfCheck)"] = inside
             out.dist["tables_outside_theorem_domain(wfCheck)"] = outside
